@@ -157,7 +157,32 @@ def clone_def(repo: Repo, rep):
     rets = [o for o in outs if o.kind == "ret"]
     excs = [o for o in outs if o.kind == "exc"]
     if not rets:
-        rep.undecided("R-CLONE-DEF", "clone has no returning path")
+        # the typestate run found no returning path (a recursive / non-inlinable helper in the way): decide the self-check on the CFG -
+        # every return is dominated by the true edge of `<parameter> == <the deepcopy>` on the whole objects
+        from ..cfg import cfg_of, edges_dominate
+
+        cfg = cfg_of(f)
+        copies = {t.id for n_ in cfg.stmts(ast.Assign) if isinstance(n_.ast.value, ast.Call) and norm(n_.ast.value.func).endswith("deepcopy") for t in n_.ast.targets if isinstance(t, ast.Name)}
+        eqs = []
+        for c_ in cfg.conds():
+            e = c_.ast
+            if isinstance(e, ast.Compare) and len(e.ops) == 1 and isinstance(e.ops[0], (ast.Eq, ast.NotEq)) and isinstance(e.left, ast.Name) and isinstance(e.comparators[0], ast.Name) and {e.left.id, e.comparators[0].id} & copies and pname in (e.left.id, e.comparators[0].id):
+                eqs.append((c_, "T" if isinstance(e.ops[0], ast.Eq) else "F"))
+        rs = cfg.stmts(ast.Return)
+        if not rs or not copies:
+            rep.undecided("R-CLONE-DEF", "clone has no returning path")
+            return
+        if not eqs or not all(edges_dominate(cfg, eqs, r_) for r_ in rs):
+            rep.violation(
+                "R-CLONE-DEF",
+                f,
+                rs[0].ast,
+                f"clone returns the copy without the direct self-check `{pname} == <copy>` of the whole object on that path (the comparison was delegated / weakened): a value that differs from its deep copy in a part "
+                "the delegate does not look at (dict keys, repr=False fields, state of a subclass) is recorded without the usage error",
+                construct="selfcheck",
+            )
+        else:
+            rep.ok("R-CLONE-DEF", f, rs[0].ast, "every return behind `obj == copy` (CFG fall-back)")
         return
 
     def is_deepcopy(t):
